@@ -2,8 +2,8 @@
 """Confirms a seeded change produced by a sub-agent in a scratch worktree and stores it under /verif/seeded/<id>/.
 usage: seed_confirm.py <worktree> <id> <prop> [--pkgs ./leveldb/journal/,./leveldb/] [--skip-suite]
 Checks: builds; demo fails with the change; existing tests of the given packages pass with the change (demo
-moved aside); demo passes without the change. Then applies the patch to /repo, runs the property's quick check,
-records whether it raised a violation, and restores /repo."""
+moved aside); demo passes without the change. Then applies the patch to a scratch copy of /repo, runs the property's
+quick check on it and records whether it raised a violation."""
 import json, os, shutil, subprocess, sys, glob
 wt, sid, prop = sys.argv[1], sys.argv[2], sys.argv[3]
 pkgs = ["./leveldb/"]
@@ -47,24 +47,25 @@ os.makedirs(dst, exist_ok=True)
 shutil.copy(patch, os.path.join(dst, "patch.diff"))
 shutil.copy(demo, os.path.join(dst, "seed_demo_test.go"))
 if os.path.exists(os.path.join(seed, "README.md")): shutil.copy(os.path.join(seed, "README.md"), os.path.join(dst, "README.md"))
-# run my check against /repo with the patch (the working tree of /repo must be clean: uncommitted contract edits
-# would otherwise be at risk)
-rc, out = run("git -C /repo status --porcelain", cwd="/verif")
-if out.strip():
-    print("REFUSING: /repo has uncommitted changes; commit them first"); sys.exit(2)
-rc, out = run(f"git -C /repo apply {dst}/patch.diff", cwd="/verif")
-if rc != 0:
-    note("patch applies to /repo", False, out)
-else:
-    try:
-        rc, out = run(f"./check.sh {prop} quick", cwd="/verif", timeout=1200)
+# run my check against a scratch copy of /repo with the patch applied (outside /repo and /verif, removed afterwards):
+# /repo itself is never touched
+import tempfile
+scratch = tempfile.mkdtemp(prefix="gocv-seedconfirm-")
+try:
+    subprocess.run(["rsync", "-a", "--exclude", ".git", "/repo/", scratch + "/"], check=True)
+    pr = subprocess.run(["patch", "-p1", "-s", "--no-backup-if-mismatch", "-i", os.path.join(dst, "patch.diff")], cwd=scratch, capture_output=True, text=True)
+    if pr.returncode != 0:
+        note("patch applies to the current /repo", False, pr.stdout + pr.stderr)
+    else:
+        c = subprocess.run(["/verif/bin/gocv", "check", "-prop", prop, "-tier", "quick", "-repo", scratch, "-out", os.path.join(scratch, ".gocv-out"),
+                            "-findings", "/verif/known_findings.txt"], capture_output=True, text=True, env=env, timeout=1200)
+        out = c.stdout
         viol = [l for l in out.splitlines() if l.startswith("VIOLATION")]
-        meta["check_exit"] = rc
+        meta["check_exit"] = c.returncode
         meta["violations"] = [v.split("obligation=")[1] if "obligation=" in v else v for v in viol][:12]
-        note(f"check {prop} raises a violation on the change", rc == 1 and bool(viol), "\n".join(viol[:5]))
-    finally:
-        run(f"git -C /repo apply -R {dst}/patch.diff", cwd="/verif")
-        run(f"./check.sh {prop} quick", cwd="/verif", timeout=1200)  # rewrite evidence on the unchanged tree
+        note(f"check {prop} raises a violation on the change", c.returncode == 1 and bool(viol), "\n".join(viol[:5]))
+finally:
+    shutil.rmtree(scratch, ignore_errors=True)
 meta["needs_to_manifest"] = open(os.path.join(seed, "README.md")).read()[:1500] if os.path.exists(os.path.join(seed, "README.md")) else ""
 json.dump(meta, open(os.path.join(dst, "meta.json"), "w"), indent=1)
 print(json.dumps({k: meta[k] for k in ("id", "property", "violations") if k in meta}, indent=1)[:1200])
